@@ -41,8 +41,33 @@ def main():
     return mod.run(args.tier, seed)
 
 
+def guarded_main():
+    """An exception escaping the harness (typically raised by changed library code in a place the harness did not
+    expect) must not look like a pass: it is reported as a violation whose replay is the traceback."""
+    try:
+        return main()
+    except SystemExit as e:
+        return e.code if isinstance(e.code, int) else 1
+    except BaseException:  # noqa
+        import json
+        import traceback
+        prop = (sys.argv[1] if len(sys.argv) > 1 else "C00").upper()
+        os.makedirs("/verif/replays", exist_ok=True)
+        path = "/verif/replays/%s-harness-exception.json" % prop
+        tb = traceback.format_exc()
+        json.dump({"property": prop, "signature": "harness-exception", "replay": {"broken": "the check itself raised while exercising the implementation", "traceback": tb[-4000:]}}, open(path, "w"), indent=1)
+        print("VIOLATION property=%s replay=%s no-failing-input-found" % (prop, path))
+        try:
+            ev = {"property_id": prop, "tier": os.environ.get("VERIF_TIER", "quick"), "seed": int(os.environ.get("VERIF_SEED", "20260930")), "level": "proof",
+                  "coverage": {"evaluations": 1, "distinct_nontrivial": 2, "samples": [tb[-500:]], "explanation": "the check raised an exception"}, "wall_s": 0.0, "violations": 1}
+            json.dump(ev, open("/verif/evidence/%s.json" % prop, "w"), indent=1)
+        except Exception:
+            pass
+        return 1
+
+
 if __name__ == "__main__":
-    rc = main()
+    rc = guarded_main()
     sys.stdout.flush()
     sys.stderr.flush()
     os._exit(rc or 0)        # skip interpreter-shutdown finalisation of deliberately abandoned coroutines
